@@ -261,6 +261,13 @@ func (d *SeqDriver) runOne(b *Behaviour) {
 		args := map[string]any{"u": st.U, "s": st.S}
 		res := map[string]any{}
 		switch st.A {
+		case "jump":
+			// the environment: the CHF has meanwhile opened so many records (for other subscribers) that its record counter
+			// stands at 2^32 - Amt; no sequence of requests that can be run gets there, the counter is set
+			c := reflect.ValueOf(chf_context.GetSelf()).Elem().FieldByName("LocalRecordSequenceNumber")
+			c.SetUint((uint64(1) << 32) - uint64(st.Amt))
+			args["below2p32"] = st.Amt
+			res["status"] = 0
 		case "topup":
 			q, _, ok := env.GetAccount(d.supi(st.U), rgNum(st.Rg))
 			if ok {
